@@ -74,6 +74,8 @@ func rulesC06(c *Ctx) {
 	c.ruleSQLAgreement("R4", map[string]bool{"proofs": true, "pending_proofs": true, "blind_signatures": true})
 	R.Rule("R5", "the signatures are stored under exactly the B_ strings the duplicate / already-signed checks compared (shared with C15.R1): no normalisation between the check and the key", 2)
 	c.ruleSigsSavedForOutputs("R5")
+	R.Rule("R8", "no typed-nil error: every pointer converted to an error value in the mint is never nil (the handlers type-assert errors to *cashu.Error and read its fields)", 20)
+	c.ruleNoTypedNilError("R8", []string{"mint", "cashu", "mint/storage/sqlite", "mint/lightning"}, 20)
 	R.Rule("R7", "a refused multi-row write leaves no rows: the spent-table, pending-table and signature inserts run in one transaction that is rolled back on the first failing row and committed only after the last (shared with C01.R6 / C03.R7 / C07.M)", 9)
 	for _, role := range []string{roleMarkSpent, roleLock, roleSaveSigs} {
 		c.checkAtomicMultiRow("R7", role)
@@ -289,7 +291,37 @@ func (c *Ctx) c06Handlers(rule string) {
 		R.Unresolved(rule, "request body decoder", "no function calling (*json.Decoder).Decode in the server package")
 		return
 	}
-	isWrite := func(d *CallDesc) bool {
+	var isWrite func(d *CallDesc) bool
+	// a helper that is new on this tree and writes a response on every way through it (the handler's tail moved
+	// into a shared function) is a write where it is called
+	alwaysWrites := map[*ssa.Function]int{} // 0 unknown, 1 yes, 2 no / in progress
+	var helperWrites func(f *ssa.Function) bool
+	helperWrites = func(f *ssa.Function) bool {
+		if v := alwaysWrites[f]; v != 0 {
+			return v == 1
+		}
+		alwaysWrites[f] = 2
+		if f == nil || f.Blocks == nil || !c.P.IsNewFunc(f) {
+			return false
+		}
+		cut := NewCut()
+		for _, ci := range Calls(f) {
+			if isWrite(c.P.Describe(ci)) {
+				cut.Barriers[ci] = true
+			}
+		}
+		for _, ret := range Returns(f) {
+			if reach, _ := ReachFromEntry(f, ret, cut); reach {
+				return false
+			}
+		}
+		alwaysWrites[f] = 1
+		return true
+	}
+	isWrite = func(d *CallDesc) bool {
+		if d.Static != nil && helperWrites(d.Static) {
+			return true
+		}
 		if d.Iface != nil && d.Iface.Name() == "Write" && strings.HasSuffix(typeShort(c.P, d.Common.Value.Type()), "ResponseWriter") {
 			return true
 		}
